@@ -55,8 +55,9 @@ Cur1(c1) == (C1 :> CurSpec(c1))
 Cur2(c2) == (C2 :> CurSpec(c2))
 ProvOf(pk, c1, c2) ==
    CASE pk = "dict" -> DictProv(Cur(c1, c2))
-     [] pk = "atvp" -> [pk |-> "atvp", mem |-> <<[pk |-> "atvp", data |-> Cur(c1, c2)]>>]
-     [] OTHER       -> [pk |-> "comp", mem |-> <<[pk |-> "dict", data |-> Cur1(c1)], [pk |-> "dict", data |-> Cur2(c2)]>>]
+     [] pk = "atvp" -> [pk |-> "atvp", mem |-> <<[pk |-> "atvp", data |-> Cur(c1, c2), call |-> {}]>>]
+     [] OTHER       -> [pk |-> "comp", mem |-> <<[pk |-> "dict", data |-> Cur1(c1), call |-> {}],
+                                                 [pk |-> "dict", data |-> Cur2(c2), call |-> {}]>>]
 
 \* the pool is parsed once (TLCEval: evaluated eagerly and cached by TLC); ParseLaw ties both parsers to Render
 PoolAlg == TLCEval([i \in 1..PN |-> AlgParse(Text0[i], PS0, Sep0)])
@@ -71,6 +72,9 @@ Results(x, a1, a2) ==
        pc  == ProvOf("comp", a1, a2)
        k1  == AlgCallSel(sel, pc, TRUE, EmptyCache)
        k2  == AlgCallSel(sel, pc, TRUE, k1.cache)
+       n1  == (a1 % 3) + 1                                    \* the current values change (lazy entries of dict members)
+       n2  == (a2 % 3) + 1
+       k3  == AlgCallSel(sel, ProvOf("comp", n1, n2), TRUE, k2.cache)
    IN [def   |-> DefExcludedA(act, N0, Cur(a1, a2)),
        def1  |-> DefExcludedA(act, N0, Cur1(a1)),
        def2  |-> DefExcludedA(act, N0, Cur2(a2)),
@@ -81,7 +85,9 @@ Results(x, a1, a2) ==
        comp  |-> k1.ex,
        warm  |-> k2.ex,
        cacheok |-> /\ k2.cache = k1.cache
-                   /\ \A c \in DOMAIN k1.cache : c \in {C1, C2} /\ k1.cache[c] = Cur(a1, a2)[c],
+                   /\ \A c \in DOMAIN k1.cache : c \in {C1, C2} /\ ~k1.cache[c].frozen /\ k1.cache[c].sp = Cur(a1, a2)[c],
+       later |-> k3.ex,
+       defL  |-> DefExcludedA(act, N0, Cur(n1, n2)),
        notign |-> AlgExcludedSel(sel, ProvOf("dict", a1, a2), FALSE),
        many  |-> AlgCompositeSel(sel, <<DictProv(Cur1(a1)), DictProv(Cur2(a2))>>, TRUE),
        none  |-> AlgCompositeSel(sel, <<>>, TRUE)]
@@ -108,6 +114,8 @@ RunIsNegation == OnCase(res.run = ~res.def)
 CompositeAny == OnCase(res.many = (res.def1 \/ res.def2) /\ res.many = res.def /\ ~res.none)
 \* the cache of the composite provider holds only true values and a warm cache does not change the answer
 CacheSound == OnCase(res.warm = res.comp /\ res.cacheok)
+\* ... and a warm cache over dict members follows the value that is current at the later call
+CacheFollowsCurrent == OnCase(res.later = res.defL)
 \* unknown categories: with ignore_unknown_categories=False the group of an unknown category behaves like a
 \* known category whose value matches nothing (documented in features/tags.active_tags.feature; not part of C19)
 NotIgnored == OnCase(res.notign = res.defU)
